@@ -2,7 +2,7 @@
    header-level write_to / from_fileobj glue around them and the layout of a single file.
    Counterparts in /repo/nibabel/nifti1.py:
      NiftiExtension.get_sizeondisk / write_to     -> size_on_disk / write_ext
-     Nifti1Extensions.write_to / from_fileobj     -> write_exts / read_exts
+     Nifti1Extensions.write_to / from_fileobj     -> write_exts / read_exts (as of fix 929c1372)
      Nifti1Header.write_to / from_fileobj         -> hdr_write / hdr_read
    Bytes are Z in [0,256); be = true means the header (hence the extension
    words) is big-endian on disk.  Definitions only. *)
@@ -45,6 +45,8 @@ Fixpoint read_exts (fuel : nat) (be : bool) (size : Z) (f : list Z) (acc : list 
       else
         let esize := dec_s be (take 4 d) in
         let code := dec_s be (drop 4 d) in
+        (* fix 929c1372: a zero esize/ecode pair is the zero fill before vox_offset *)
+        if (esize =? 0) && (code =? 0) then Ok (rev acc, f1) else
         let '(v, f2) := fread (esize - 8) f1 in
         if negb (zlen v =? esize - 8) then Err ErrExtContent
         else read_exts fuel' be (size - esize) f2 (mkExt code (rstrip0 v) :: acc)
